@@ -504,6 +504,19 @@ pub fn gate_grant(tid: i32, n: u32) {
     GATE_CV.notify_all();
 }
 
+/// Is there any thread of this process whose name marks it as a flush worker of the crate under test?
+pub fn any_worker_thread_alive() -> bool {
+    let Ok(rd) = std::fs::read_dir("/proc/self/task") else { return true };
+    for e in rd.flatten() {
+        if let Ok(c) = std::fs::read_to_string(e.path().join("comm")) {
+            if c.starts_with("raft_log_wal_fl") {
+                return true;
+            }
+        }
+    }
+    false
+}
+
 pub fn thread_alive(tid: i32) -> bool {
     std::path::Path::new(&format!("/proc/self/task/{}", tid)).exists()
 }
